@@ -1,8 +1,8 @@
 CONSTANT Mode = "mixed"
-CONSTANT MaxSteps = 3
+CONSTANT MaxSteps = 2
 CONSTANT MaxZero = 1
 CONSTANT RowCounts = {3, 4}
-CONSTANT NGen = 1
+CONSTANT NGen = 3
 SPECIFICATION Spec
 INVARIANT TypeOK
 INVARIANT Consistent
